@@ -438,7 +438,7 @@ func (v *FnVC) typeInvariants(x Sc, t types.Type, st *State, guard Term) {
 	v.inTypeInv = true
 	defer func() { v.inTypeInv = false }()
 	for _, ti := range invs {
-		env := &specEnv{v: v, fr: v.top, st: st, old: st, bound: map[string]specVal{ti.Var: {V: x, T: t}}}
+		env := &specEnv{v: v, fr: v.top, st: st, old: st, bound: map[string]specVal{ti.Var: {V: x, T: t}}, specPkg: v.w.pkgByShort(ti.Clause.Pkg)}
 		env.guard = And(guard, Not(Eq(x.T, tZero)))
 		body := env.evalBool(ti.Clause.Expr)
 		v.sc.Assert(Implies(And(guard, Not(Eq(x.T, tZero))), body))
@@ -1310,6 +1310,16 @@ func (v *FnVC) enterLoop(fr *frame, li *loopInfo, b *ssa.BasicBlock, st *State, 
 						n := v.sc.Fresh("ghost", SBool)
 						v.sc.Assert(Implies(old, n)) // observers are monotone: once true, they stay true
 						st.ghost[g+FuncKey(cal)] = n
+					}
+					{
+						ck := "count#" + FuncKey(cal)
+						old := tZero
+						if t, ok := st.ghost[ck]; ok {
+							old = t
+						}
+						n := v.sc.Fresh("ghostn", SInt)
+						v.sc.Assert(Le(old, n))
+						st.ghost[ck] = n
 					}
 				}
 			}
